@@ -17,10 +17,16 @@ import PetgraphModel.Proofs.C07W2Neg
 import PetgraphModel.Proofs.C07W2Base
 import PetgraphModel.Proofs.C07W2Sp
 import PetgraphModel.Theorems.C10
+import PetgraphModel.Proofs.C07W3Bounds
+import PetgraphModel.Proofs.C07W3Extra
 /-
 C07 — generic algorithms depend only on the abstract graph, not on its representation.
 
-Part 1 (regenerated from source on every run): the scratch-container table of `src/algo/*.rs`.
+Part 1 (regenerated from source on every run): the scratch-container table of `src/algo/*.rs`
+(`vec![_; E]`, `FixedBitSet::with_capacity(E)`, `resize(E, _)`, `UnionFind::new(E)`, struct-literal fields such
+as the `Vf2State` vectors).  `C07_scratch_safe` is about the sizing alone; section "Wave 3" at the end of the file
+(`C07_to_index_lt_bound*`, `C07_scratch_in_bounds*`) turns it into "no out-of-bounds access" on the storage tables
+of C06.
 -/
 namespace PetgraphModel.C07T
 open PetgraphModel PetgraphModel.Extracted
@@ -1352,5 +1358,798 @@ theorem C07_is_isomorphic_subgraph_respects_iso (I1 I2 : Inst) (s1 : Vf2Side I1 
   cases hb1 : subModel I1 <;> cases hb2 : subModel I2 <;> simp_all
 
 end C13b
+
+/-! # Wave 3
+
+## "sized by `node_bound`" ⟹ "no out-of-bounds access through `to_index`"
+
+`C07_scratch_safe` is about the regenerated table alone: every scratch container that is indexed through
+`to_index` in a function accepting graphs with vacant indices is *sized* by `node_bound`/`edge_bound`.  The
+theorems below close the gap to the storage types: for the table computed from each storage model
+(`Theorems/C06.lean`, `C06_consistent_<Type>`), `to_index a < node_bound` for every live `a` — the clause `indexOk`
+of `TableConsistent` — and therefore an access `c[to_index a]` into a container `c` of that length is in bounds. -/
+section W3Bounds
+open PetgraphModel.Visit PetgraphModel.C07W3
+
+/-- **bridging lemma**: on every consistent table `to_index a` is recorded and is below `node_bound`, for every
+live node `a`. -/
+theorem C07_to_index_lt_bound (qs : List Nat) (t : Table) (h : TableConsistent qs t) (ids : List Nat)
+    (hids : t.ids = some ids) (a : Nat) (ha : a ∈ ids) : ∃ i, t.toIx.lookup a = some i ∧ i < t.nodeBound :=
+  toIndexBelow_of_consistent h ids hids a ha
+
+/-- … for every storage table proved consistent in `Theorems/C06.lean` (`StorageTable`: one constructor per
+`C06_consistent_<Type>` theorem; the repaired tables of D6/D7 have the node fields of the unrepaired ones,
+`C07W3.repair_node_fields`). -/
+theorem C07_to_index_lt_bound_storage (t : Table) (h : StorageTable t) : ToIndexBelow t t.nodeBound := by
+  obtain ⟨qs, hc⟩ := h.consistent
+  exact toIndexBelow_of_consistent hc
+
+/-- `Graph` (C01 invariant): `to_index(a) = a.index() < node_count = node_bound` -/
+theorem C07_to_index_lt_bound_Graph (s : G.State) (h : C01T.Inv s) (a : Nat) (ha : a < s.nodes.length) :
+    ∃ i, (graphTable s).toIx.lookup a = some i ∧ i < (graphTable s).nodeBound :=
+  toIndexBelow_of_indexOk (g_index s h) _ rfl a (List.mem_range.mpr ha)
+
+/-- `GraphMap` (C03 invariant): the position of the key in the node `IndexMap` -/
+theorem C07_to_index_lt_bound_GraphMap (s : GM.State) (h : GMProofs.Inv s) (a : Nat) (ha : a ∈ GM.nodesOf s) :
+    ∃ i, (graphMapTable s).toIx.lookup a = some i ∧ i < (graphMapTable s).nodeBound :=
+  toIndexBelow_of_indexOk (gm_index s h) _ rfl a ha
+
+/-- `Csr`, directed and undirected (node count fits the index type) -/
+theorem C07_to_index_lt_bound_Csr (s : CsrM.State) (hf : C06T.CsrIxFits s) (a : Nat)
+    (ha : a ∈ CsrM.nodeIdentifiers s) :
+    ∃ i, (csrTable s).toIx.lookup a = some i ∧ i < (csrTable s).nodeBound :=
+  toIndexBelow_of_indexOk (CsrW2.csr_indexOk hf) _ rfl a ha
+
+/-- `adj::List` -/
+theorem C07_to_index_lt_bound_List (s : AdjM.State) (h : C06T.ListWF s) (a : Nat) (ha : a ∈ AdjM.nodeIndices s) :
+    ∃ i, (adjListTable s).toIx.lookup a = some i ∧ i < (adjListTable s).nodeBound :=
+  toIndexBelow_of_indexOk (al_index s h) _ rfl a ha
+
+/-- `MatrixGraph`, directed and undirected — the type with vacant indices among the C06 tables: the bound is
+`upper_bound` of the id storage, not the node count -/
+theorem C07_to_index_lt_bound_MatrixGraph (s : Matrix.State) (h : C04T.Inv s) (a : Nat) (ha : a ∈ s.nodes.ids) :
+    ∃ i, (matrixTable s).toIx.lookup a = some i ∧ i < s.nodes.upperBound :=
+  toIndexBelow_of_indexOk (MXProofs.index_ok h) _ rfl a ha
+
+/-- `StableGraph` (no C06 table; `to_index(a) = a.index()`, `from_index(i) = NodeIndex::new(i)`): every live node
+index is below `node_bound` and every live edge index below `edge_bound`, in every state. -/
+theorem C07_to_index_lt_bound_StableGraph (s : SG.State) :
+    (∀ a, (SG.nodeWeight s a).isSome = true → a < SG.nodeBound s) ∧
+    (∀ e, (SG.edgeWeight s e).isSome = true → e < SG.edgeBound s) :=
+  ⟨stable_live_lt_bound s, stable_edge_live_lt_bound s⟩
+
+/-- **no out-of-bounds access**: for every entry of the regenerated scratch table that is indexed through
+`to_index` and sized by `node_bound`, on every storage table of C06, a container `c` of the allocated length
+(`scratchLen t u.size = some c.length`) has an element at `to_index a` for every live node `a`. -/
+theorem C07_scratch_in_bounds :
+    ∀ u ∈ scratchTable, u.indexedByToIndex = true → u.size = .nodeBound →
+      ∀ t, StorageTable t → ∀ {α : Type} (c : List α), scratchLen t u.size = some c.length →
+        ∀ ids, t.ids = some ids → ∀ a ∈ ids, ∃ i, t.toIx.lookup a = some i ∧ ∃ x, c[i]? = some x := by
+  intro u _ _ hsz t ht α c hc
+  rw [hsz] at hc
+  have hlen : t.nodeBound = c.length := by simpa [scratchLen] using hc
+  exact accessInBounds_of_below (hlen ▸ C07_to_index_lt_bound_storage t ht)
+
+/-- … and the entries of compact-only functions (`compactOnly`: the signature demands `NodeCompactIndexable`),
+which may be sized by `node_count`: on a compact storage table `node_count = node_bound`, so they are in bounds
+too.  Together with `C07_scratch_safe` this covers every entry indexed through a node's `to_index` except the
+recorded finding D12. -/
+theorem C07_scratch_in_bounds_compact :
+    ∀ u ∈ scratchTable, u.indexedByToIndex = true → u.compactOnly = true → (u.size = .nodeCount ∨ u.size = .nodeBound) →
+      ∀ t, StorageTable t → t.compact = true → ∀ {α : Type} (c : List α), scratchLen t u.size = some c.length →
+        ∀ ids, t.ids = some ids → ∀ a ∈ ids, ∃ i, t.toIx.lookup a = some i ∧ ∃ x, c[i]? = some x := by
+  intro u _ _ _ hsz t ht hcomp α c hc ids hids
+  obtain ⟨qs, hcons⟩ := ht.consistent
+  have hlen : t.nodeBound = c.length := by
+    rcases hsz with h | h
+    · rw [h] at hc
+      have hn : t.nodeCount = some c.length := by simpa [scratchLen] using hc
+      exact (nodeCount_eq_bound_of_compact hcons hcomp ids hids _ hn).symm
+    · rw [h] at hc; simpa [scratchLen] using hc
+  exact accessInBounds_of_below (hlen ▸ toIndexBelow_of_consistent hcons) ids hids
+
+/-- the entries sized by `edge_bound` (the flow table of `ford_fulkerson`, indexed by
+`EdgeIndexable::to_index`): on every storage table implementing `EdgeIndexable`, in bounds for every listed edge. -/
+theorem C07_scratch_in_bounds_edge :
+    ∀ u ∈ scratchTable, u.size = .edgeBound →
+      ∀ t, StorageTable t → ∀ {α : Type} (c : List α), scratchLen t u.size = some c.length →
+        ∀ er l, t.erefs = some er → t.eix = some l → ∀ e ∈ er, ∃ x, l.lookup e.id = some x ∧ ∃ y, c[x.1]? = some y := by
+  intro u _ hsz t ht α c hc er l her hl e he
+  obtain ⟨qs, hcons⟩ := ht.consistent
+  rw [hsz] at hc
+  have heb : t.edgeBound = some c.length := by simpa [scratchLen] using hc
+  obtain ⟨x, hx, hlt⟩ := edgeToIndexBelow_of_consistent hcons _ heb er l her hl e he
+  exact ⟨x, hx, c[x.1], List.getElem?_eq_getElem hlt⟩
+
+/-- the hypotheses are not vacuous: the table has entries of each of the three kinds -/
+example : (scratchTable.filter fun u => u.indexedByToIndex && u.size == .nodeBound).length ≥ 15 ∧
+    (scratchTable.filter fun u => u.indexedByToIndex && u.compactOnly && u.size == .nodeCount).length ≥ 5 ∧
+    (scratchTable.filter fun u => u.size == .edgeBound).length ≥ 1 := by decide
+
+end W3Bounds
+
+/-! ## `…_total` variants: the second run answers whenever the first does
+
+The wave-2 theorems above take "both runs answer" (`= some …`) as hypotheses.  Where a totality theorem of the
+model exists (C10: `dijkstra`, `astar`, `k_shortest_path` terminate; C11: the `spfa` work list and
+`find_negative_cycle` never exhaust their fuel, `bellman_ford`/`floyd_warshall` are total functions whose `none` IS
+the answer `Err(NegativeCycle)`; C12: both MST models always emit) the hypotheses on the second run go away: if
+run 1 answers then run 2 answers, and the answers correspond.  (`simple_fast`, `articulation_points`,
+`ford_fulkerson`, `page_rank` above are already of this form.  Not covered: the C08/C09 traversal loops and VF2,
+whose fuel-sufficiency theorems do not exist yet.) -/
+section W3Total
+open PetgraphModel.C10P PetgraphModel.SP PetgraphModel.C07W2
+
+/-- **dijkstra, encoding independence, total**: both runs answer (any two min-heap tie orders, any two views of
+the same weighted arcs) and the answers agree as in `C07_dijkstra_encoding_independent`. -/
+theorem C07_dijkstra_encoding_independent_total (pop1 pop2 : Pop) (hp1 : IsMinPop pop1) (hp2 : IsMinPop pop2)
+    (v1 v2 : View) (hv1 : ViewArcs v1) (hv2 : ViewArcs v2) (hw : NonNeg v1.g)
+    (hg : SameArcs v1.g v2.g) (s : Nat) (goal : Option Nat) :
+    ∃ m1 m2, SP.dijkstra pop1 v1 s goal = some m1 ∧ SP.dijkstra pop2 v2 s goal = some m2 ∧
+      (goal = none → ∀ x, amGet m1 x = amGet m2 x) ∧ (∀ t, goal = some t → amGet m1 t = amGet m2 t) := by
+  obtain ⟨m1, r1⟩ := C10T.C10_dijkstra_terminates pop1 hp1 v1 s goal
+  obtain ⟨m2, r2⟩ := C10T.C10_dijkstra_terminates pop2 hp2 v2 s goal
+  exact ⟨m1, m2, r1, r2, C07_dijkstra_encoding_independent pop1 pop2 hp1 hp2 v1 v2 hv1 hv2 hw hg s goal m1 m2 r1 r2⟩
+
+/-- **dijkstra respects isomorphism, total** -/
+theorem C07_dijkstra_respects_iso_total (φ : Nat → Nat) (hφ : ∀ x y, φ x = φ y → x = y)
+    (pop1 pop2 : Pop) (hp1 : IsMinPop pop1) (hp2 : IsMinPop pop2)
+    (v1 v2 : View) (hv1 : ViewArcs v1) (hv2 : ViewArcs v2) (hw : NonNeg v1.g)
+    (hg : SameArcs v2.g (relabel φ v1.g)) (s : Nat) :
+    ∃ m1 m2, SP.dijkstra pop1 v1 s none = some m1 ∧ SP.dijkstra pop2 v2 (φ s) none = some m2 ∧
+      (∀ x, amGet m2 (φ x) = amGet m1 x) ∧ (∀ y c, amGet m2 y = some c → ∃ x, y = φ x) := by
+  obtain ⟨m1, r1⟩ := C10T.C10_dijkstra_terminates pop1 hp1 v1 s none
+  obtain ⟨m2, r2⟩ := C10T.C10_dijkstra_terminates pop2 hp2 v2 (φ s) none
+  exact ⟨m1, m2, r1, r2, C07_dijkstra_respects_iso φ hφ pop1 pop2 hp1 hp2 v1 v2 hv1 hv2 hw hg s m1 m2 r1 r2⟩
+
+/-- **dijkstra with a goal respects isomorphism, total** -/
+theorem C07_dijkstra_goal_respects_iso_total (φ : Nat → Nat) (hφ : ∀ x y, φ x = φ y → x = y)
+    (pop1 pop2 : Pop) (hp1 : IsMinPop pop1) (hp2 : IsMinPop pop2)
+    (v1 v2 : View) (hv1 : ViewArcs v1) (hv2 : ViewArcs v2) (hw : NonNeg v1.g)
+    (hg : SameArcs v2.g (relabel φ v1.g)) (s t : Nat) :
+    ∃ m1 m2, SP.dijkstra pop1 v1 s (some t) = some m1 ∧ SP.dijkstra pop2 v2 (φ s) (some (φ t)) = some m2 ∧
+      amGet m2 (φ t) = amGet m1 t := by
+  obtain ⟨m1, r1⟩ := C10T.C10_dijkstra_terminates pop1 hp1 v1 s (some t)
+  obtain ⟨m2, r2⟩ := C10T.C10_dijkstra_terminates pop2 hp2 v2 (φ s) (some (φ t))
+  exact ⟨m1, m2, r1, r2, C07_dijkstra_goal_respects_iso φ hφ pop1 pop2 hp1 hp2 v1 v2 hv1 hv2 hw hg s t m1 m2 r1 r2⟩
+
+/-- the `k_shortest_path` model answers with a map — neither "fuel exhausted" (`C10_kshortest_terminates`) nor an
+out-of-bounds access of the counter (`C10_kshortest_safe`) — whenever `to_index` stays below `node_bound` -/
+theorem kshortest_answers (pop : Pop) (hp : IsMinPop pop) (v : View) (hv : ViewArcs v) (s : Nat)
+    (hix : C10P.IxOk v s) (goal : Option Nat) (k : Nat) : ∃ m, kShortestPath pop v s goal k = .done m := by
+  have hs := C10T.C10_kshortest_safe pop hp v hv s hix goal k
+  have ht := C10T.C10_kshortest_terminates pop hp v s goal k
+  cases hr : kShortestPath pop v s goal k with
+  | done m => exact ⟨m, rfl⟩
+  | panic => rw [hr] at hs; exact hs.elim
+  | fuel => exact absurd hr ht
+
+/-- **k_shortest_path, encoding independence, total** -/
+theorem C07_kshortest_encoding_independent_total (pop1 pop2 : Pop) (hp1 : IsMinPop pop1) (hp2 : IsMinPop pop2)
+    (v1 v2 : View) (hv1 : ViewArcsM v1) (hv2 : ViewArcsM v2) (hw : NonNeg v1.g)
+    (hg : v1.g.arcs.Perm v2.g.arcs) (s k : Nat) (hk : 1 ≤ k)
+    (hix1 : C10P.IxOk v1 s) (hinj1 : IxInj v1 s) (hix2 : C10P.IxOk v2 s) (hinj2 : IxInj v2 s) :
+    ∃ m1 m2, kShortestPath pop1 v1 s none k = .done m1 ∧ kShortestPath pop2 v2 s none k = .done m2 ∧
+      ∀ x, amGet m1 x = amGet m2 x := by
+  obtain ⟨m1, r1⟩ := kshortest_answers pop1 hp1 v1 hv1.viewArcs s hix1 none k
+  obtain ⟨m2, r2⟩ := kshortest_answers pop2 hp2 v2 hv2.viewArcs s hix2 none k
+  exact ⟨m1, m2, r1, r2, C07_kshortest_encoding_independent pop1 pop2 hp1 hp2 v1 v2 hv1 hv2 hw hg s k hk
+    hix1 hinj1 hix2 hinj2 m1 m2 r1 r2⟩
+
+/-- **k_shortest_path respects isomorphism, total** -/
+theorem C07_kshortest_respects_iso_total (φ : Nat → Nat) (hφ : ∀ x y, φ x = φ y → x = y)
+    (pop1 pop2 : Pop) (hp1 : IsMinPop pop1) (hp2 : IsMinPop pop2)
+    (v1 v2 : View) (hv1 : ViewArcsM v1) (hv2 : ViewArcsM v2) (hw : NonNeg v1.g)
+    (hg : v2.g.arcs.Perm (relabel φ v1.g).arcs) (s k : Nat) (hk : 1 ≤ k)
+    (hix1 : C10P.IxOk v1 s) (hinj1 : IxInj v1 s) (hix2 : C10P.IxOk v2 (φ s)) (hinj2 : IxInj v2 (φ s)) :
+    ∃ m1 m2, kShortestPath pop1 v1 s none k = .done m1 ∧ kShortestPath pop2 v2 (φ s) none k = .done m2 ∧
+      (∀ x, amGet m2 (φ x) = amGet m1 x) ∧ (∀ y c, amGet m2 y = some c → ∃ x, y = φ x) := by
+  obtain ⟨m1, r1⟩ := kshortest_answers pop1 hp1 v1 hv1.viewArcs s hix1 none k
+  obtain ⟨m2, r2⟩ := kshortest_answers pop2 hp2 v2 hv2.viewArcs (φ s) hix2 none k
+  exact ⟨m1, m2, r1, r2, C07_kshortest_respects_iso φ hφ pop1 pop2 hp1 hp2 v1 v2 hv1 hv2 hw hg s k hk
+    hix1 hinj1 hix2 hinj2 m1 m2 r1 r2⟩
+
+/-- **astar respects isomorphism, total**: with fuel at least `astarBound` on both sides either both runs answer
+`None`, or both answer `Some` with the same cost — no third case (`fuel`) on either side. -/
+theorem C07_astar_respects_iso_total (φ : Nat → Nat) (hφ : ∀ x y, φ x = φ y → x = y)
+    (pop1 pop2 : Pop) (hp1 : IsMinPop pop1) (hp2 : IsMinPop pop2)
+    (v1 v2 : View) (hv1 : ViewArcs v1) (hv2 : ViewArcs v2) (hw : NonNeg v1.g)
+    (hg : SameArcs v2.g (relabel φ v1.g)) (s : Nat) (goal1 goal2 : Nat → Bool)
+    (hgoal : ∀ x, goal2 (φ x) = goal1 x) (h1 h2 : Nat → Int)
+    (ha1 : Admissible v1.g goal1 h1) (ha2 : Admissible v2.g goal2 h2) (f1 f2 : Nat)
+    (hf1 : astarBound v1.g s ≤ f1) (hf2 : astarBound v2.g (φ s) ≤ f2) :
+    (SP.astar pop1 v1 s goal1 h1 f1 = .notFound ∧ SP.astar pop2 v2 (φ s) goal2 h2 f2 = .notFound) ∨
+    ∃ c p1 p2, SP.astar pop1 v1 s goal1 h1 f1 = .found c p1 ∧ SP.astar pop2 v2 (φ s) goal2 h2 f2 = .found c p2 := by
+  have hw2 : NonNeg v2.g := nonNeg_congr (SameArcs.symm hg) (nonNeg_relabel φ v1.g hw)
+  have R := C07_astar_respects_iso φ hφ pop1 pop2 hp1 hp2 v1 v2 hv1 hv2 hw hg s goal1 goal2 hgoal h1 h2 ha1 ha2
+    f1 f2 hf1 hf2
+  have A1 := astar_cost_spec pop1 hp1 v1 hv1 hw s goal1 h1 ha1 f1 hf1
+  have A2 := astar_cost_spec pop2 hp2 v2 hv2 hw2 (φ s) goal2 h2 ha2 f2 hf2
+  rcases A1 with ⟨e1, _⟩ | ⟨c1, p1, e1, _⟩
+  · exact Or.inl ⟨e1, R.1.mp e1⟩
+  · rcases A2 with ⟨e2, _⟩ | ⟨c2, p2, e2, _⟩
+    · have := R.1.mpr e2; rw [e1] at this; cases this
+    · have hc := R.2 c1 p1 c2 p2 e1 e2
+      subst hc
+      exact Or.inr ⟨c1, p1, p2, e1, e2⟩
+
+end W3Total
+
+section W3TotalC11
+open PetgraphModel.C11M PetgraphModel.C11MP PetgraphModel.C11P PetgraphModel.C07W2
+
+/-- **bellman_ford respects isomorphism, total**: the model is a total function (`none` is the answer
+`Err(NegativeCycle)`); if the first run answers `Ok` so does the second, and the distance tables correspond. -/
+theorem C07_bellman_ford_respects_iso_total (φ : Nat → Nat) (hφ : ∀ x y, φ x = φ y → x = y)
+    (v1 v2 : View) (hv1 : C11MP.ViewArcs v1) (hv2 : C11MP.ViewArcs v2)
+    (hwf1 : v1.g.WellFormed) (hwf2 : v2.g.WellFormed)
+    (hg : SameArcs v2.g (relabel φ v1.g)) (s : Nat) (hs1 : s ∈ v1.g.nodes) (hs2 : φ s ∈ v2.g.nodes)
+    (st1 : BF) (r1 : bellmanFord v1 s = some st1) :
+    ∃ st2, bellmanFord v2 (φ s) = some st2 ∧
+      (∀ x, tget st2.d (φ x) = tget st1.d x) ∧ (∀ y c, tget st2.d y = some c → ∃ x, y = φ x) := by
+  have R := C07_bellman_ford_respects_iso φ hφ v1 v2 hv1 hv2 hwf1 hwf2 hg s hs1 hs2
+  cases r2 : bellmanFord v2 (φ s) with
+  | none => have := R.1.mpr r2; rw [r1] at this; cases this
+  | some st2 => exact ⟨st2, rfl, R.2 st1 st2 r1 r2⟩
+
+/-- … and an error of the first run is an error of the second -/
+theorem C07_bellman_ford_err_respects_iso_total (φ : Nat → Nat) (hφ : ∀ x y, φ x = φ y → x = y)
+    (v1 v2 : View) (hv1 : C11MP.ViewArcs v1) (hv2 : C11MP.ViewArcs v2)
+    (hwf1 : v1.g.WellFormed) (hwf2 : v2.g.WellFormed)
+    (hg : SameArcs v2.g (relabel φ v1.g)) (s : Nat) (hs1 : s ∈ v1.g.nodes) (hs2 : φ s ∈ v2.g.nodes)
+    (r1 : bellmanFord v1 s = none) : bellmanFord v2 (φ s) = none :=
+  (C07_bellman_ford_respects_iso φ hφ v1 v2 hv1 hv2 hwf1 hwf2 hg s hs1 hs2).1.mp r1
+
+/-- **bellman_ford, encoding independence, total** -/
+theorem C07_bellman_ford_encoding_independent_total
+    (v1 v2 : View) (hv1 : C11MP.ViewArcs v1) (hv2 : C11MP.ViewArcs v2)
+    (hwf1 : v1.g.WellFormed) (hwf2 : v2.g.WellFormed)
+    (hg : SameArcs v1.g v2.g) (s : Nat) (hs1 : s ∈ v1.g.nodes) (hs2 : s ∈ v2.g.nodes)
+    (st1 : BF) (r1 : bellmanFord v1 s = some st1) :
+    ∃ st2, bellmanFord v2 s = some st2 ∧ ∀ x, tget st1.d x = tget st2.d x := by
+  have R := C07_bellman_ford_encoding_independent v1 v2 hv1 hv2 hwf1 hwf2 hg s hs1 hs2
+  cases r2 : bellmanFord v2 s with
+  | none => have := R.1.mpr r2; rw [r1] at this; cases this
+  | some st2 => exact ⟨st2, rfl, R.2 st1 st2 r1 r2⟩
+
+/-- **find_negative_cycle respects isomorphism, total**: neither run exhausts the fuel of the predecessor walk,
+and one returns a sequence iff the other does. -/
+theorem C07_find_negative_cycle_respects_iso_total (φ : Nat → Nat) (hφ : ∀ x y, φ x = φ y → x = y)
+    (v1 v2 : View) (hv1 : C11MP.ViewArcs v1) (hv2 : C11MP.ViewArcs v2)
+    (hwf1 : v1.g.WellFormed) (hwf2 : v2.g.WellFormed)
+    (hg : SameArcs v2.g (relabel φ v1.g)) (s : Nat) (hs1 : s ∈ v1.g.nodes) (hs2 : φ s ∈ v2.g.nodes) :
+    (findNegativeCycle v1 s = .none ∧ findNegativeCycle v2 (φ s) = .none) ∨
+    ∃ seq1 seq2, findNegativeCycle v1 s = .some seq1 ∧ findNegativeCycle v2 (φ s) = .some seq2 := by
+  have R := C07_find_negative_cycle_respects_iso φ hφ v1 v2 hv1 hv2 hwf1 hwf2 hg s hs1 hs2
+  have F1 := C11T.C11_find_negative_cycle_fuel v1 hv1 hwf1 s
+  have F2 := C11T.C11_find_negative_cycle_fuel v2 hv2 hwf2 (φ s)
+  cases r1 : findNegativeCycle v1 s with
+  | fuel => exact absurd r1 F1
+  | none => exact Or.inl ⟨rfl, R.mp r1⟩
+  | some seq1 =>
+    cases r2 : findNegativeCycle v2 (φ s) with
+    | fuel => exact absurd r2 F2
+    | none => have := R.mpr r2; rw [r1] at this; cases this
+    | some seq2 => exact Or.inr ⟨seq1, seq2, rfl, rfl⟩
+
+/-- **spfa respects isomorphism, total**: if the first run answers `Ok` (within its cost type: `hfit1`), the second
+run neither exhausts its fuel (`C11_spfa_fuel`) nor reports a negative cycle (`C11_spfa_err`, under that theorem's
+hypotheses on the second view: `node_bound ≥ |V|`, walk costs of at most `|V|` arcs fit the cost type) — it answers
+`Ok`, and, provided its result fits its cost type (`hfit2`, the hypothesis of `C11_spfa_ok`), the distance tables
+correspond. -/
+theorem C07_spfa_respects_iso_total (φ : Nat → Nat) (hφ : ∀ x y, φ x = φ y → x = y)
+    (B1 B2 : Meas) (hB1 : 0 < B1.max) (hB2 : 0 < B2.max)
+    (v1 v2 : View) (hv1 : C11MP.ViewArcs v1) (hv2 : C11MP.ViewArcs v2) (hwf2 : v2.g.WellFormed)
+    (hg : SameArcs v2.g (relabel φ v1.g)) (s : Nat) (hs2 : φ s ∈ v2.g.nodes) (hnb2 : v2.g.nodes.length ≤ v2.nb)
+    (hfitw2 : ∀ x c j, j ≤ v2.g.nodes.length → WalkN v2.g (φ s) x c j → B2.min ≤ c ∧ c < B2.max)
+    (st1 : SP) (r1 : spfa B1 v1 s = some (some st1))
+    (hfit1 : ∀ a b w, (a, b, w) ∈ v1.g.arcs → ∀ x, tget st1.d a = some x → B1.min ≤ x + w ∧ x + w < B1.max)
+    (hfit2 : ∀ st2, spfa B2 v2 (φ s) = some (some st2) →
+      ∀ a b w, (a, b, w) ∈ v2.g.arcs → ∀ x, tget st2.d a = some x → B2.min ≤ x + w ∧ x + w < B2.max) :
+    ∃ st2, spfa B2 v2 (φ s) = some (some st2) ∧
+      (∀ x, tget st2.d (φ x) = tget st1.d x) ∧ (∀ y c, tget st2.d y = some c → ∃ x, y = φ x) := by
+  have hno1 := (C11T.C11_spfa_ok B1 hB1 v1 hv1 s st1 r1 hfit1).2.2.1
+  have F2 := C11T.C11_spfa_fuel B2 v2 hv2 hwf2 (φ s) hs2
+  cases r2 : spfa B2 v2 (φ s) with
+  | none => exact absurd r2 F2
+  | some o =>
+    cases o with
+    | none =>
+      have hneg := C11T.C11_spfa_err B2 v2 hv2 hwf2 (φ s) hs2 hnb2 hfitw2 r2
+      exact absurd ((negCycleReachable_relabel_iff hφ v1.g s).mp ((negCycleReachable_congr hg (φ s)).mp hneg)) hno1
+    | some st2 =>
+      exact ⟨st2, rfl, C07_spfa_respects_iso φ hφ B1 B2 hB1 hB2 v1 v2 hv1 hv2 hg s st1 st2 r1 r2 hfit1 (hfit2 st2 r2)⟩
+
+/-- **spfa, encoding independence, total** -/
+theorem C07_spfa_encoding_independent_total
+    (B1 B2 : Meas) (hB1 : 0 < B1.max) (hB2 : 0 < B2.max)
+    (v1 v2 : View) (hv1 : C11MP.ViewArcs v1) (hv2 : C11MP.ViewArcs v2) (hwf2 : v2.g.WellFormed)
+    (hg : SameArcs v1.g v2.g) (s : Nat) (hs2 : s ∈ v2.g.nodes) (hnb2 : v2.g.nodes.length ≤ v2.nb)
+    (hfitw2 : ∀ x c j, j ≤ v2.g.nodes.length → WalkN v2.g s x c j → B2.min ≤ c ∧ c < B2.max)
+    (st1 : SP) (r1 : spfa B1 v1 s = some (some st1))
+    (hfit1 : ∀ a b w, (a, b, w) ∈ v1.g.arcs → ∀ x, tget st1.d a = some x → B1.min ≤ x + w ∧ x + w < B1.max)
+    (hfit2 : ∀ st2, spfa B2 v2 s = some (some st2) →
+      ∀ a b w, (a, b, w) ∈ v2.g.arcs → ∀ x, tget st2.d a = some x → B2.min ≤ x + w ∧ x + w < B2.max) :
+    ∃ st2, spfa B2 v2 s = some (some st2) ∧ ∀ x, tget st1.d x = tget st2.d x := by
+  have hno1 := (C11T.C11_spfa_ok B1 hB1 v1 hv1 s st1 r1 hfit1).2.2.1
+  have F2 := C11T.C11_spfa_fuel B2 v2 hv2 hwf2 s hs2
+  cases r2 : spfa B2 v2 s with
+  | none => exact absurd r2 F2
+  | some o =>
+    cases o with
+    | none =>
+      have hneg := C11T.C11_spfa_err B2 v2 hv2 hwf2 s hs2 hnb2 hfitw2 r2
+      exact absurd ((negCycleReachable_congr hg s).mpr hneg) hno1
+    | some st2 =>
+      exact ⟨st2, rfl, (C07_spfa_encoding_independent B1 B2 hB1 hB2 v1 v2 hv1 hv2 hg s st1 st2 r1 r2 hfit1
+        (hfit2 st2 r2)).1⟩
+
+/-- **floyd_warshall respects isomorphism, total**: the model is a total function (`none` = `Err(NegativeCycle)`);
+if the first run answers `Ok` so does the second and the matrices correspond. -/
+theorem C07_floyd_warshall_respects_iso_total (φ : Nat → Nat) (hφ : ∀ x y, φ x = φ y → x = y)
+    (B1 B2 : Meas) (v1 v2 : View) (hwf1 : v1.g.WellFormed) (hwf2 : v2.g.WellFormed)
+    (hwide1 : FloydWide B1 v1) (hwide2 : FloydWide B2 v2) (hg : SameArcs v2.g (relabel φ v1.g))
+    (st1 : FW) (r1 : floydWarshall B1 v1 = some st1) :
+    ∃ st2, floydWarshall B2 v2 = some st2 ∧
+      ∀ i, i ∈ v1.g.nodes → φ i ∈ v2.g.nodes → ∀ j, tget st2.d (φ i, φ j) = tget st1.d (i, j) := by
+  have R := C07_floyd_warshall_respects_iso φ hφ B1 B2 v1 v2 hwf1 hwf2 hwide1 hwide2 hg
+  cases r2 : floydWarshall B2 v2 with
+  | none => have := R.1.mpr r2; rw [r1] at this; cases this
+  | some st2 => exact ⟨st2, rfl, R.2 st1 st2 r1 r2⟩
+
+/-- **floyd_warshall, encoding independence, total** -/
+theorem C07_floyd_warshall_encoding_independent_total
+    (B1 B2 : Meas) (v1 v2 : View) (hwf1 : v1.g.WellFormed) (hwf2 : v2.g.WellFormed)
+    (hwide1 : FloydWide B1 v1) (hwide2 : FloydWide B2 v2) (hg : SameArcs v1.g v2.g)
+    (st1 : FW) (r1 : floydWarshall B1 v1 = some st1) :
+    ∃ st2, floydWarshall B2 v2 = some st2 ∧
+      ∀ i, i ∈ v1.g.nodes → i ∈ v2.g.nodes → ∀ j, tget st1.d (i, j) = tget st2.d (i, j) := by
+  have R := C07_floyd_warshall_encoding_independent B1 B2 v1 v2 hwf1 hwf2 hwide1 hwide2 hg
+  cases r2 : floydWarshall B2 v2 with
+  | none => have := R.1.mpr r2; rw [r1] at this; cases this
+  | some st2 => exact ⟨st2, rfl, R.2 st1 st2 r1 r2⟩
+
+end W3TotalC11
+
+section W3TotalC12
+open PetgraphModel.MST PetgraphModel.MstModel PetgraphModel.C07W2
+
+/-- **min_spanning_tree respects isomorphism, total**: both runs emit (the Kruskal model has no failing branch on a
+`KView`), with the same number of edges and the same total weight. -/
+theorem C07_kruskal_respects_iso_total (φ : Nat → Nat) (hφ : ∀ x y, φ x = φ y → x = y)
+    (v1 v2 : View) (hv1 : KView v1) (hv2 : KView v2) (hwf1 : v1.g.WellFormed) (hwf2 : v2.g.WellFormed)
+    (er1 er2 : List (Nat × Nat × Nat)) (her1 : ErOk v1 er1) (her2 : ErOk v2 er2)
+    (hE : SameUEdges v2.g.edges (relabel φ v1.g).edges) :
+    ∃ ns1 es1 ns2 es2, kruskal v1 er1 = .ok ns1 es1 ∧ kruskal v2 er2 = .ok ns2 es2 ∧
+      es1.length = es2.length ∧ (es1.map (·.w)).sum = (es2.map (·.w)).sum := by
+  obtain ⟨A1, run1, -⟩ := kruskal_light v1 hv1 hwf1 er1 her1
+  obtain ⟨A2, run2, -⟩ := kruskal_light v2 hv2 hwf2 er2 her2
+  exact ⟨_, _, _, _, run1, run2,
+    C07_kruskal_respects_iso φ hφ v1 v2 hv1 hv2 hwf1 hwf2 er1 er2 her1 her2 hE _ _ _ _ run1 run2⟩
+
+/-- **min_spanning_tree_prim respects isomorphism, total** -/
+theorem C07_prim_respects_iso_total (φ : Nat → Nat) (hφ : ∀ x y, φ x = φ y → x = y)
+    (v1 v2 : View) (hv1 : PView v1) (hv2 : PView v2)
+    (hE : SameUEdges v2.g.edges (relabel φ v1.g).edges)
+    (s : Nat) (rest1 rest2 : List Nat) (hV1 : v1.g.nodes = s :: rest1) (hV2 : v2.g.nodes = φ s :: rest2) :
+    ∃ ns1 es1 ns2 es2, prim v1 = .ok ns1 es1 ∧ prim v2 = .ok ns2 es2 ∧
+      es1.length = es2.length ∧ (es1.map (·.w)).sum = (es2.map (·.w)).sum := by
+  obtain ⟨A1, run1, -⟩ := prim_light v1 hv1 s rest1 hV1
+  obtain ⟨A2, run2, -⟩ := prim_light v2 hv2 (φ s) rest2 hV2
+  exact ⟨_, _, _, _, run1, run2,
+    C07_prim_respects_iso φ hφ v1 v2 hv1 hv2 hE s rest1 rest2 hV1 hV2 _ _ _ _ run1 run2⟩
+
+end W3TotalC12
+
+/-! ## algorithms without a C07 theorem so far: greedy_matching, maximum_matching, all_simple_paths,
+dag_transitive_reduction_closure, condensation, TarjanScc reuse -/
+
+section W3Matching
+open PetgraphModel.C15 PetgraphModel.C15M PetgraphModel.C15P PetgraphModel.C07W2 PetgraphModel.C07W3
+
+/-- `Joined` (a non-loop edge, direction ignored), matchings and the size of a maximum matching are carried along
+by an injective relabeling, in both directions -/
+theorem C07_matching_notions_relabel (φ : Nat → Nat) (hφ : ∀ x y, φ x = φ y → x = y) (g : MGraph) :
+    (∀ a b, Joined (relabel φ g) (φ a) (φ b) ↔ Joined g a b) ∧
+    (∀ M, IsMatching g M → IsMatching (relabel φ g) (mapPairs φ M)) ∧
+    (∀ M', IsMatching (relabel φ g) M' → ∃ M, IsMatching g M ∧ mapPairs φ M = M') ∧
+    maxMatchingSize (relabel φ g) = maxMatchingSize g :=
+  ⟨fun _ _ => joined_relabel_iff hφ g, fun _ h => isMatching_relabel hφ g h, isMatching_relabel_inv φ g,
+    maxMatchingSize_relabel hφ g⟩
+
+/-- … and depend only on which pairs of nodes are joined (edge ids, weights, multiplicity, stored orientation,
+insertion order are free) -/
+theorem C07_matching_notions_presentation (g1 g2 : MGraph) (h : SameJoined g1 g2) :
+    (∀ M, IsMatching g1 M ↔ IsMatching g2 M) ∧ maxMatchingSize g1 = maxMatchingSize g2 :=
+  ⟨fun _ => isMatching_congr h, maxMatchingSize_congr h⟩
+
+/-- **greedy_matching is valid on both encodings, and each answer is a valid answer for the other**: two views
+(any storage type with `to_index` injective below `node_bound` — vacancies allowed —, any neighbour order) of a
+graph and of its renaming by an injective `φ` (any presentation joining the same pairs): neither run accesses
+`mate` out of bounds, each result is a matching of its own graph, the first result renamed is a matching of the
+second graph, and both sizes are bounded by the same maximum.  (The greedy answer itself depends on the
+iteration order: the two results need not have the same size.) -/
+theorem C07_greedy_matching_respects_iso (φ : Nat → Nat) (hφ : ∀ x y, φ x = φ y → x = y)
+    (v1 v2 : View) (hix1 : IxOk v1) (hix2 : IxOk v2) (hwf1 : v1.g.WellFormed) (hwf2 : v2.g.WellFormed)
+    (hs1 : ViewSound v1) (hs2 : ViewSound v2) (hg : SameJoined v2.g (relabel φ v1.g)) :
+    let M1 := pairsOf (mateTable v1 (greedyInner v1))
+    let M2 := pairsOf (mateTable v2 (greedyInner v2))
+    (greedyInner v1).fault = false ∧ (greedyInner v2).fault = false ∧
+    IsMatching v1.g M1 ∧ IsMatching v2.g M2 ∧ IsMatching v2.g (mapPairs φ M1) ∧
+    maxMatchingSize v2.g = maxMatchingSize v1.g ∧
+    M1.length ≤ maxMatchingSize v1.g ∧ M2.length ≤ maxMatchingSize v1.g := by
+  intro M1 M2
+  have G1 := C15T.C15_greedy_valid v1 hix1 hwf1 hs1
+  have G2 := C15T.C15_greedy_valid v2 hix2 hwf2 hs2
+  have hsz : maxMatchingSize v2.g = maxMatchingSize v1.g :=
+    (maxMatchingSize_congr hg).trans (maxMatchingSize_relabel hφ v1.g)
+  refine ⟨G1.1, G2.1, G1.2.2.2, G2.2.2.2, (isMatching_congr hg).mpr (isMatching_relabel hφ v1.g G1.2.2.2), hsz,
+    maxMatchingSize_upper _ _ G1.2.2.2, ?_⟩
+  rw [← hsz]; exact maxMatchingSize_upper _ _ G2.2.2.2
+
+/-- **greedy_matching, encoding independence** (two views of two presentations of the same graph) -/
+theorem C07_greedy_matching_encoding_independent
+    (v1 v2 : View) (hix1 : IxOk v1) (hix2 : IxOk v2) (hwf1 : v1.g.WellFormed) (hwf2 : v2.g.WellFormed)
+    (hs1 : ViewSound v1) (hs2 : ViewSound v2) (hg : SameJoined v1.g v2.g) :
+    let M1 := pairsOf (mateTable v1 (greedyInner v1))
+    let M2 := pairsOf (mateTable v2 (greedyInner v2))
+    (greedyInner v1).fault = false ∧ (greedyInner v2).fault = false ∧
+    IsMatching v1.g M1 ∧ IsMatching v2.g M2 ∧ IsMatching v2.g M1 ∧ IsMatching v1.g M2 ∧
+    maxMatchingSize v1.g = maxMatchingSize v2.g := by
+  intro M1 M2
+  have G1 := C15T.C15_greedy_valid v1 hix1 hwf1 hs1
+  have G2 := C15T.C15_greedy_valid v2 hix2 hwf2 hs2
+  exact ⟨G1.1, G2.1, G1.2.2.2, G2.2.2.2, (isMatching_congr hg).mp G1.2.2.2, (isMatching_congr hg).mpr G2.2.2.2,
+    maxMatchingSize_congr hg⟩
+
+/-- **maximum_matching is valid on both encodings** (hypotheses of `C15_maximum_valid` on each view; any two
+`mode`s): no fault, each result is a matching of its own graph and — renamed — of the other, the two definitional
+maxima coincide, so the per-run maximality judge `len = maxMatchingSize` asks the same of both runs: if the first
+result is maximum, the second is maximum iff it has the same number of pairs.  (Maximality of the Gabow model
+itself is the open statement `C15_maximum_maximum_statement`.) -/
+theorem C07_maximum_matching_respects_iso (φ : Nat → Nat) (hφ : ∀ x y, φ x = φ y → x = y)
+    (v1 v2 : View) (mode1 mode2 : Nat) (hix1 : IxOk v1) (hix2 : IxOk v2)
+    (hwf1 : v1.g.WellFormed) (hwf2 : v2.g.WellFormed)
+    (hex1 : C15T.ViewExact v1) (hex2 : C15T.ViewExact v2) (hvac1 : C15W2.VacOk v1) (hvac2 : C15W2.VacOk v2)
+    (hg : SameJoined v2.g (relabel φ v1.g)) :
+    let M1 := pairsOf (mateTable v1 (maximumMatching v1 mode1))
+    let M2 := pairsOf (mateTable v2 (maximumMatching v2 mode2))
+    (maximumMatching v1 mode1).fault = false ∧ (maximumMatching v2 mode2).fault = false ∧
+    IsMatching v1.g M1 ∧ IsMatching v2.g M2 ∧ IsMatching v2.g (mapPairs φ M1) ∧
+    maxMatchingSize v2.g = maxMatchingSize v1.g ∧
+    (IsMaximumMatching v1.g M1 → (IsMaximumMatching v2.g M2 ↔ M2.length = M1.length)) := by
+  intro M1 M2
+  have V1 := C15T.C15_maximum_valid v1 mode1 hix1 hwf1 hex1 hvac1
+  have V2 := C15T.C15_maximum_valid v2 mode2 hix2 hwf2 hex2 hvac2
+  have m1 : IsMatching v1.g M1 := mateValid_isMatching _ _ V1.2.2
+  have m2 : IsMatching v2.g M2 := mateValid_isMatching _ _ V2.2.2
+  have hsz : maxMatchingSize v2.g = maxMatchingSize v1.g :=
+    (maxMatchingSize_congr hg).trans (maxMatchingSize_relabel hφ v1.g)
+  refine ⟨V1.1, V2.1, m1, m2, (isMatching_congr hg).mpr (isMatching_relabel hφ v1.g m1), hsz, fun hmax => ?_⟩
+  rw [isMaximum_iff_size m2, hsz, ← (isMaximum_iff_size m1).mp hmax]
+
+end W3Matching
+
+section W3Paths
+open PetgraphModel.C20 PetgraphModel.C07W2 PetgraphModel.C07W3
+
+/-- "simple path from `a` to `b` with a number of intermediate nodes within the bounds" is carried along by an
+injective relabeling, and depends only on the adjacency relation -/
+theorem C07_simple_path_relabel (φ : Nat → Nat) (hφ : ∀ x y, φ x = φ y → x = y) (g : MGraph) (a b lo : Nat)
+    (hi : Option Nat) (p : List Nat) :
+    IsSimplePathIn (relabel φ g) (φ a) (φ b) lo hi (p.map φ) ↔ IsSimplePathIn g a b lo hi p :=
+  isSimplePathIn_relabel_iff hφ g
+
+/-- **all_simple_paths respects isomorphism**: run to exhaustion on a directed graph and on any presentation of
+its renaming by an injective `φ` (another insertion order of the edges — hence another order of the successor
+lists —, other edge ids), the iterator yields the same set of paths up to the renaming: `p` is yielded by the
+first run iff `p.map φ` is by the second, and the second run yields nothing else.  On simple graphs each path is
+yielded once by either run, so the two outputs have the same length. -/
+theorem C07_all_simple_paths_respects_iso (φ : Nat → Nat) (hφ : ∀ x y, φ x = φ y → x = y) (g1 g2 : MGraph)
+    (hd1 : g1.directed = true) (hd2 : g2.directed = true) (he1 : EndpointsOk g1) (he2 : EndpointsOk g2)
+    (hg : SameAdj g2 (relabel φ g1)) (a b lo : Nat) (hi : Option Nat) (hab : a ≠ b)
+    (ha1 : a ∈ g1.nodes) (ha2 : φ a ∈ g2.nodes) (f1 f2 : Nat) (out1 out2 : List (List Nat))
+    (r1 : Paths.allSimplePaths g1.succ g1.nodes.length a b lo hi f1 = some out1)
+    (r2 : Paths.allSimplePaths g2.succ g2.nodes.length (φ a) (φ b) lo hi f2 = some out2) :
+    (∀ p, p.map φ ∈ out2 ↔ p ∈ out1) ∧ (∀ q ∈ out2, ∃ p ∈ out1, q = p.map φ) ∧
+    (simpleB g1 = true → simpleB g2 = true → out1.length = out2.length) := by
+  have E1 := C20T.C20_paths_model_exact g1 a b lo hi f1 out1 hd1 he1 hab ha1 r1
+  have E2 := C20T.C20_paths_model_exact g2 (φ a) (φ b) lo hi f2 out2 hd2 he2 (fun h => hab (hφ _ _ h)) ha2 r2
+  have key : ∀ p, p.map φ ∈ out2 ↔ p ∈ out1 := fun p => by
+    rw [E1.1, E2.1, isSimplePathIn_congr hg]
+    exact isSimplePathIn_relabel_iff hφ g1
+  have img : ∀ q ∈ out2, ∃ p ∈ out1, q = p.map φ := by
+    intro q hq
+    obtain ⟨p, rfl⟩ := isSimplePathIn_relabel_image φ g1 ((isSimplePathIn_congr hg).mp ((E2.1 q).mp hq))
+    exact ⟨p, (key p).mp hq, rfl⟩
+  refine ⟨key, img, fun s1 s2 => ?_⟩
+  have nd1 := E1.2 s1
+  have nd2 := E2.2 s2
+  have hinj : ∀ p q : List Nat, p.map φ = q.map φ → p = q :=
+    fun p q h => List.map_injective_iff.mpr (fun x y h => hφ x y h) h
+  have nd1' : (out1.map (List.map φ)).Nodup := by
+    unfold List.Nodup
+    rw [List.pairwise_map]
+    exact nd1.imp fun hne e => hne (hinj _ _ e)
+  have hperm : (out1.map (List.map φ)).Perm out2 := by
+    refine (List.perm_ext_iff_of_nodup nd1' nd2).mpr fun q => ?_
+    constructor
+    · intro hq
+      obtain ⟨p, hp, rfl⟩ := List.mem_map.mp hq
+      exact (key p).mpr hp
+    · intro hq
+      obtain ⟨p, hp, rfl⟩ := img q hq
+      exact List.mem_map.mpr ⟨p, hp, rfl⟩
+  simpa using hperm.length_eq
+
+/-- **all_simple_paths, encoding independence**: two presentations of the same adjacency relation (another
+insertion order of the edges) yield the same set of paths. -/
+theorem C07_all_simple_paths_encoding_independent (g1 g2 : MGraph)
+    (hd1 : g1.directed = true) (hd2 : g2.directed = true) (he1 : EndpointsOk g1) (he2 : EndpointsOk g2)
+    (hg : SameAdj g1 g2) (a b lo : Nat) (hi : Option Nat) (hab : a ≠ b)
+    (ha1 : a ∈ g1.nodes) (ha2 : a ∈ g2.nodes) (f1 f2 : Nat) (out1 out2 : List (List Nat))
+    (r1 : Paths.allSimplePaths g1.succ g1.nodes.length a b lo hi f1 = some out1)
+    (r2 : Paths.allSimplePaths g2.succ g2.nodes.length a b lo hi f2 = some out2) :
+    ∀ p, p ∈ out1 ↔ p ∈ out2 := by
+  intro p
+  rw [(C20T.C20_paths_model_exact g1 a b lo hi f1 out1 hd1 he1 hab ha1 r1).1,
+    (C20T.C20_paths_model_exact g2 a b lo hi f2 out2 hd2 he2 hab ha2 r2).1, isSimplePathIn_congr hg]
+
+end W3Paths
+
+section W3Tred
+open PetgraphModel.C20 PetgraphModel.C07W2 PetgraphModel.C07W3
+
+theorem C07_covers_relabel (φ : Nat → Nat) (hφ : ∀ x y, φ x = φ y → x = y) (g : MGraph) (u v : Nat) :
+    Covers (relabel φ g) (φ u) (φ v) ↔ Covers g u v :=
+  covers_relabel_iff hφ g
+
+/-- **dag_transitive_reduction_closure does not depend on which toposort renumbered the DAG**: `rows1`, `rows2`
+two toposorted adjacency lists (the format `dag_to_toposorted_adjacency_list` produces, from any two toposorts of
+any two encodings) presenting the same DAG up to an injective renumbering `σ` of the indices — then closure row
+`σ i` of the second answer is exactly closure row `i` of the first renamed by `σ`, and the same for the reduction. -/
+theorem C07_tred_respects_iso (σ : Nat → Nat) (hσ : ∀ x y, σ x = σ y → x = y) (rows1 rows2 : List (List Nat))
+    (hts1 : ∀ i x, x ∈ rows1.getD i [] → i < x) (hasc1 : ∀ i, ascending (rows1.getD i []) = true)
+    (hts2 : ∀ i x, x ∈ rows2.getD i [] → i < x) (hasc2 : ∀ i, ascending (rows2.getD i []) = true)
+    (hg : SameAdj (Tred.rowsGraph rows2) (relabel σ (Tred.rowsGraph rows1)))
+    (i : Nat) (hi1 : i < rows1.length) (hi2 : σ i < rows2.length) :
+    (∀ y, σ y ∈ (Tred.reductionClosure rows2).2.getD (σ i) [] ↔ y ∈ (Tred.reductionClosure rows1).2.getD i []) ∧
+    (∀ y' ∈ (Tred.reductionClosure rows2).2.getD (σ i) [], ∃ y, y' = σ y) ∧
+    (∀ x, σ x ∈ (Tred.reductionClosure rows2).1.getD (σ i) [] ↔ x ∈ (Tred.reductionClosure rows1).1.getD i []) := by
+  have T1 := C20T.C20_tred_model_correct rows1 hts1 hasc1 i hi1
+  have T2 := C20T.C20_tred_model_correct rows2 hts2 hasc2 (σ i) hi2
+  refine ⟨fun y => ?_, fun y' hy' => ?_, fun x => ?_⟩
+  · rw [T1.1, T2.1, reach1_congr hg]
+    exact reach1_relabel_iff _ hσ
+  · obtain ⟨y, hy, _⟩ := reach1_relabel_inv _ hσ ((reach1_congr hg).mp ((T2.1 y').mp hy'))
+    exact ⟨y, hy⟩
+  · rw [T1.2, T2.2, covers_congr hg]
+    exact covers_relabel_iff hσ _
+
+end W3Tred
+
+section W3Cond
+open PetgraphModel.C09J PetgraphModel.C09M PetgraphModel.C07W2 PetgraphModel.C07W3
+
+/-- the partition into classes of mutual reachability, renamed, is that of the renamed graph, and any two such
+partitions of a graph have the same number of classes -/
+theorem C07_partition_relabel (φ : Nat → Nat) (hφ : ∀ x y, φ x = φ y → x = y) (g : MGraph)
+    (comps comps' : List (List Nat)) (h : PartSpec g comps) (h' : PartSpec (relabel φ g) comps') :
+    PartSpec (relabel φ g) (comps.map (List.map φ)) ∧ comps.length = comps'.length := by
+  have hr := partSpec_relabel hφ h
+  exact ⟨hr, by simpa using partSpec_length_unique hr h'⟩
+
+/-- the partition clause of both `CondSpec` and `CondAcyclicSpec` -/
+theorem condensation_part (v : View) (hv : C09P.ViewOk v) (hp : ∀ a b, b ∈ v.pred a ↔ v.g.Adj b a)
+    (hwf : v.g.WellFormed) (eo : List Nat) (heo : (eo.filterMap v.edge?).Perm v.g.edges) (acyc : Bool) (c : Cond)
+    (h : condensation v eo acyc = some c) : PartSpec v.g c.nodes := by
+  cases acyc with
+  | false => exact (C09T.C09_condensation v hv hp hwf eo heo c h).part
+  | true => exact (C09T.C09_condensation_acyclic v eo hv hp hwf heo c h).part
+
+/-- **condensation respects isomorphism** (either value of `make_acyclic`, possibly different on the two sides):
+the condensed graphs of a graph and of any presentation of its renaming have the same number of nodes, the node
+weights (member lists) are the same partition up to `φ` — two nodes share a condensed node of the first answer iff
+their images share one of the second — and the first answer's node weights, renamed, are a correct partition for
+the second graph. -/
+theorem C07_condensation_respects_iso (φ : Nat → Nat) (hφ : ∀ x y, φ x = φ y → x = y)
+    (v1 v2 : View) (hv1 : C09P.ViewOk v1) (hv2 : C09P.ViewOk v2)
+    (hp1 : ∀ a b, b ∈ v1.pred a ↔ v1.g.Adj b a) (hp2 : ∀ a b, b ∈ v2.pred a ↔ v2.g.Adj b a)
+    (hwf1 : v1.g.WellFormed) (hwf2 : v2.g.WellFormed)
+    (eo1 eo2 : List Nat) (heo1 : (eo1.filterMap v1.edge?).Perm v1.g.edges)
+    (heo2 : (eo2.filterMap v2.edge?).Perm v2.g.edges)
+    (hn : SameNodes v2.g (relabel φ v1.g)) (hg : SameAdj v2.g (relabel φ v1.g))
+    (acyc1 acyc2 : Bool) (c1 c2 : Cond)
+    (h1 : condensation v1 eo1 acyc1 = some c1) (h2 : condensation v2 eo2 acyc2 = some c2) :
+    c1.nodes.length = c2.nodes.length ∧
+    PartSpec v2.g (c1.nodes.map (List.map φ)) ∧
+    ∀ x y, (∃ n ∈ c1.nodes, x ∈ n ∧ y ∈ n) ↔ (∃ n ∈ c2.nodes, φ x ∈ n ∧ φ y ∈ n) := by
+  have P1 := condensation_part v1 hv1 hp1 hwf1 eo1 heo1 acyc1 c1 h1
+  have P2 := condensation_part v2 hv2 hp2 hwf2 eo2 heo2 acyc2 c2 h2
+  have P1' : PartSpec v2.g (c1.nodes.map (List.map φ)) := partSpec_congr hn.symm hg.symm (partSpec_relabel hφ P1)
+  refine ⟨by simpa using partSpec_length_unique P1' P2, P1', fun x y => ?_⟩
+  rw [C09P.part_same_iff P1, C09P.part_same_iff P2]
+  have e1 : φ x ∈ v2.g.nodes ↔ x ∈ v1.g.nodes := (hn (φ x)).trans (mem_relabel_nodes v1.g hφ)
+  have e2 : SC v2.g (φ x) (φ y) ↔ SC v1.g x y := (sc_congr hg).trans (sc_relabel_iff hφ v1.g)
+  rw [e1, e2]
+
+/-- … and with `make_acyclic = false` the condensed graph has one edge per original edge, so equally many on both
+sides when the two edge lists are equally long (e.g. the same multiset of arcs up to `φ`) -/
+theorem C07_condensation_edge_count (v1 v2 : View) (hv1 : C09P.ViewOk v1) (hv2 : C09P.ViewOk v2)
+    (hp1 : ∀ a b, b ∈ v1.pred a ↔ v1.g.Adj b a) (hp2 : ∀ a b, b ∈ v2.pred a ↔ v2.g.Adj b a)
+    (hwf1 : v1.g.WellFormed) (hwf2 : v2.g.WellFormed)
+    (eo1 eo2 : List Nat) (heo1 : (eo1.filterMap v1.edge?).Perm v1.g.edges)
+    (heo2 : (eo2.filterMap v2.edge?).Perm v2.g.edges) (hlen : v1.g.edges.length = v2.g.edges.length)
+    (c1 c2 : Cond) (h1 : condensation v1 eo1 false = some c1) (h2 : condensation v2 eo2 false = some c2) :
+    c1.edges.length = c2.edges.length := by
+  have l1 := (C09T.C09_condensation v1 hv1 hp1 hwf1 eo1 heo1 c1 h1).edges.length_eq
+  have l2 := (C09T.C09_condensation v2 hv2 hp2 hwf2 eo2 heo2 c2 h2).edges.length_eq
+  simp only [List.length_map] at l1 l2
+  omega
+
+/-- **TarjanScc reuse respects isomorphism**: `run` on ANY two clean `TarjanScc` values (stack empty,
+`index + |V| ≤ componentcount ≤ usize::MAX` — fresh, or left behind by any number of earlier runs on any graphs)
+over two views of a graph and of its renaming: the first answer renamed is a correct answer for the second graph,
+the two answers are the same partition, `node_component_index` separates the same pairs of nodes, and both values
+are clean again (so the statement applies to the next reuse). -/
+theorem C07_tarjan_reuse_respects_iso (φ : Nat → Nat) (hφ : ∀ x y, φ x = φ y → x = y)
+    (v1 v2 : View) (hv1 : C09P.ViewOk v1) (hv2 : C09P.ViewOk v2) (hix1 : C09T.IxOk v1) (hix2 : C09T.IxOk v2)
+    (hwf1 : v1.g.WellFormed) (hwf2 : v2.g.WellFormed)
+    (hn : SameNodes v2.g (relabel φ v1.g)) (hg : SameAdj v2.g (relabel φ v1.g))
+    (t1 t2 t1' t2' : TJ) (hst1 : t1.stack = []) (hst2 : t2.stack = [])
+    (hB1 : t1.index + v1.g.nodes.length ≤ t1.cc) (hB2 : t2.index + v2.g.nodes.length ≤ t2.cc)
+    (hcc1 : t1.cc ≤ usizeMax) (hcc2 : t2.cc ≤ usizeMax)
+    (h1 : tjRun v1 t1 = some t1') (h2 : tjRun v2 t2 = some t2') :
+    SccSpec v2.g (t1'.out.map (List.map φ)) ∧
+    (∀ x y, (∃ c ∈ t1'.out, x ∈ c ∧ y ∈ c) ↔ (∃ c ∈ t2'.out, φ x ∈ c ∧ φ y ∈ c)) ∧
+    (∀ x ∈ v1.g.nodes, ∀ y ∈ v1.g.nodes,
+      (tjIndex v1 t1' x = tjIndex v1 t1' y ↔ tjIndex v2 t2' (φ x) = tjIndex v2 t2' (φ y))) ∧
+    t1'.out.length = t2'.out.length ∧
+    (t1'.stack = [] ∧ t1'.index = t1.index ∧ t1'.cc + t1'.out.length = t1.cc) ∧
+    (t2'.stack = [] ∧ t2'.index = t2.index ∧ t2'.cc + t2'.out.length = t2.cc) := by
+  obtain ⟨S1, I1, st1, ix1, cc1, _⟩ := C09T.C09_tarjan_run v1 hv1 hix1 hwf1 t1 t1' hst1 hB1 hcc1 h1
+  obtain ⟨S2, I2, st2, ix2, cc2, _⟩ := C09T.C09_tarjan_run v2 hv2 hix2 hwf2 t2 t2' hst2 hB2 hcc2 h2
+  have S1' : SccSpec v2.g (t1'.out.map (List.map φ)) := sccSpec_congr hn.symm hg.symm (sccSpec_relabel hφ S1)
+  have same : ∀ x y, (∃ c ∈ t1'.out, x ∈ c ∧ y ∈ c) ↔ (∃ c ∈ t2'.out, φ x ∈ c ∧ φ y ∈ c) := by
+    intro x y
+    rw [C09P.part_same_iff (C09P.SccSpec.toPart S1), C09P.part_same_iff (C09P.SccSpec.toPart S2)]
+    have e1 : φ x ∈ v2.g.nodes ↔ x ∈ v1.g.nodes := (hn (φ x)).trans (mem_relabel_nodes v1.g hφ)
+    have e2 : SC v2.g (φ x) (φ y) ↔ SC v1.g x y := (sc_congr hg).trans (sc_relabel_iff hφ v1.g)
+    rw [e1, e2]
+  refine ⟨S1', same, ?_, ?_, ⟨st1, ix1, cc1⟩, ⟨st2, ix2, cc2⟩⟩
+  · intro x hx y hy
+    have hx2 : φ x ∈ v2.g.nodes := (hn (φ x)).mpr ((mem_relabel_nodes v1.g hφ).mpr hx)
+    have hy2 : φ y ∈ v2.g.nodes := (hn (φ y)).mpr ((mem_relabel_nodes v1.g hφ).mpr hy)
+    have a1 := I1.2 x _ y _ (List.mem_map.mpr ⟨x, hx, rfl⟩) (List.mem_map.mpr ⟨y, hy, rfl⟩)
+    have a2 := I2.2 (φ x) _ (φ y) _ (List.mem_map.mpr ⟨φ x, hx2, rfl⟩) (List.mem_map.mpr ⟨φ y, hy2, rfl⟩)
+    rw [a1, a2]; exact same x y
+  · simpa using partSpec_length_unique (C09P.SccSpec.toPart S1') (C09P.SccSpec.toPart S2)
+
+/-- in particular **a reused `TarjanScc` value answers like a fresh one**: the value left by a run on any view
+`v0` of any graph, run again on a view of `g`, gives the same partition as a fresh value on another view of
+(another presentation of) `g`. -/
+theorem C07_tarjan_reuse_same_as_fresh
+    (v0 v1 v2 : View) (hv0 : C09P.ViewOk v0) (hv1 : C09P.ViewOk v1) (hv2 : C09P.ViewOk v2)
+    (hix0 : C09T.IxOk v0) (hix1 : C09T.IxOk v1) (hix2 : C09T.IxOk v2)
+    (hwf0 : v0.g.WellFormed) (hwf1 : v1.g.WellFormed) (hwf2 : v2.g.WellFormed)
+    (hs0 : 2 * v0.g.nodes.length + v1.g.nodes.length + 1 ≤ usizeMax) (hs2 : 2 * v2.g.nodes.length + 1 ≤ usizeMax)
+    (hn : SameNodes v1.g v2.g) (hg : SameAdj v1.g v2.g)
+    (t0 t1 t2 : TJ) (h0 : tjRun v0 {} = some t0) (h1 : tjRun v1 t0 = some t1) (h2 : tjRun v2 {} = some t2) :
+    ∀ x y, (∃ c ∈ t1.out, x ∈ c ∧ y ∈ c) ↔ (∃ c ∈ t2.out, x ∈ c ∧ y ∈ c) := by
+  obtain ⟨_, _, st0, ix0, cc0, len0⟩ := C09T.C09_tarjan_run v0 hv0 hix0 hwf0 {} t0 rfl
+    (by show 1 + v0.g.nodes.length ≤ usizeMax; omega) (Nat.le_refl _) h0
+  have hix : t0.index = 1 := ix0
+  have hcc : t0.cc + t0.out.length = usizeMax := cc0
+  have S1 := (C09T.C09_tarjan_run v1 hv1 hix1 hwf1 t0 t1 st0 (by omega) (by omega) h1).1
+  have S2 := (C09T.C09_tarjan_run v2 hv2 hix2 hwf2 {} t2 rfl
+    (by show 1 + v2.g.nodes.length ≤ usizeMax; omega) (Nat.le_refl _) h2).1
+  intro x y
+  rw [C09P.part_same_iff (C09P.SccSpec.toPart S1), C09P.part_same_iff (C09P.SccSpec.toPart S2), hn x, sc_congr hg]
+
+end W3Cond
+
+/-! ## the hypotheses of the wave-3 theorems are satisfiable -/
+section W3Examples
+open PetgraphModel.Visit PetgraphModel.C07W3 PetgraphModel.C07W2
+
+/-- a view with a vacant index (a `MatrixGraph<Directed>` after `add_node ×3, add_edge 2 0, remove_node 1`):
+live ids `0, 2`, `node_count = 2`, `node_bound = 3` -/
+def exVacant : Table :=
+  { directed := true, ids := some [0, 2], refs := some [(0, 11), (2, 12)], nodeCount := some 2,
+    nodeBound := 3, toIx := [(0, 0), (2, 2)], fromIx := [(0, 0), (2, 2)], compact := false,
+    erefs := some [⟨200, 2, 0, 7⟩], edgeCount := some 1, edgeBound := none, eix := none,
+    nbrs := some [(0, []), (2, [0])], nbrsOut := some [(0, []), (2, [0])], nbrsIn := some [(0, [2]), (2, [])],
+    edges := some [(0, []), (2, [⟨200, 2, 0, 7⟩])], edgesOut := some [(0, []), (2, [⟨200, 2, 0, 7⟩])],
+    edgesIn := some [(0, [⟨200, 2, 0, 7⟩]), (2, [])],
+    adj := some [(0, []), (2, [0])] }
+
+/-- the bridging lemma applies to it: a container of `node_bound` elements is hit in bounds at `to_index 2 = 2` … -/
+example : ∃ i, exVacant.toIx.lookup 2 = some i ∧ i < exVacant.nodeBound :=
+  C07_to_index_lt_bound [0, 2] exVacant (C06T.C06_checkTable_sound _ _ (by decide)) [0, 2] rfl 2 (by decide)
+
+/-- … while a container of `node_count` elements would not be (what `C07_scratch_safe` excludes for the functions
+that accept such graphs) -/
+example : exVacant.toIx.lookup 2 = some 2 ∧ scratchLen exVacant .nodeCount = some 2 ∧
+    ([0, 0] : List Nat)[2]? = none := by decide
+
+/-- a storage table of C06 in the sense of `StorageTable`: `Graph` after a history with a removal -/
+example : StorageTable (graphTable (G.run (G.empty 4294967295 true)
+    [.addNode 7, .addNode 8, .addNode 9, .addEdge 0 1 5, .addEdge 1 2 6, .removeNode 0]).1) :=
+  .graph _ (C01T.C01_inv_all_histories _ _ _)
+
+/-- `C15T.exampleView` with another index assignment, another bound and the rows in another order -/
+def exMatchView2 : View :=
+  { g := C15T.exampleView.g,
+    nb := 6, ix := [(0, 5), (1, 0), (2, 3), (3, 1)],
+    out := [(3, [(2, 3)]), (2, [(3, 3), (0, 2), (1, 1)]), (1, [(2, 1), (0, 0)]), (0, [(2, 2), (1, 0)])],
+    inn := [(3, [(2, 3)]), (2, [(3, 3), (0, 2), (1, 1)]), (1, [(2, 1), (0, 0)]), (0, [(2, 2), (1, 0)])] }
+
+/-- the hypotheses of `C07_greedy_matching_encoding_independent` hold for the pair -/
+example : C15M.ixOkB exMatchView2 = true ∧ C15M.viewSoundB exMatchView2 = true ∧ C15M.wfB exMatchView2.g = true ∧
+    C15M.ixOkB C15T.exampleView = true ∧ C15M.viewSoundB C15T.exampleView = true := by decide
+
+example :
+    C15.IsMatching C15T.exampleView.g (C15.pairsOf (C15P.mateTable exMatchView2 (C15M.greedyInner exMatchView2))) :=
+  (C07_greedy_matching_encoding_independent C15T.exampleView exMatchView2
+    (C15P.ixOkB_sound _ (by decide)) (C15P.ixOkB_sound _ (by decide)) (C15P.wfB_sound _ (by decide))
+    (C15P.wfB_sound _ (by decide)) (C15P.viewSoundB_sound _ (by decide)) (C15P.viewSoundB_sound _ (by decide))
+    (SameJoined.refl _)).2.2.2.2.2.1
+
+/-- two toposorts (`a, b, c, d` and `a, c, b, d`) of the DAG `a → b, a → c, c → d` give two toposorted adjacency
+lists related by the renumbering that swaps 1 and 2 -/
+def exSwap : Nat → Nat := fun x => if x = 1 then 2 else if x = 2 then 1 else x
+
+theorem exSwap_inj : ∀ x y, exSwap x = exSwap y → x = y := by
+  intro x y h; unfold exSwap at h; split at h <;> split at h <;> (try split at h) <;> (try split at h) <;> omega
+
+theorem exSwap_sameAdj :
+    SameAdj (C20.Tred.rowsGraph [[1, 2], [3], [], []]) (relabel exSwap (C20.Tred.rowsGraph [[1, 2], [], [3], []])) := by
+  intro a b
+  rw [C20.Tred.rowsGraph_adj]
+  constructor
+  · intro h
+    have key : ∀ a' b', a = exSwap a' → b = exSwap b' → b' ∈ ([[1, 2], [], [3], []] : List (List Nat)).getD a' [] →
+        (relabel exSwap (C20.Tred.rowsGraph [[1, 2], [], [3], []])).Adj a b := fun a' b' ha hb hm =>
+      (adj_relabel_iff exSwap _).mpr ⟨a', b', ha, hb, (C20.Tred.rowsGraph_adj _ _ _).mpr hm⟩
+    rcases a with _ | _ | _ | _ | a
+    · simp at h
+      rcases h with rfl | rfl
+      · exact key 0 2 rfl rfl (by simp)
+      · exact key 0 1 rfl rfl (by simp)
+    · simp at h; subst h; exact key 2 3 rfl rfl (by simp)
+    · simp at h
+    · simp at h
+    · simp at h
+  · intro h
+    obtain ⟨a', b', rfl, rfl, h'⟩ := (adj_relabel_iff exSwap _).mp h
+    rw [C20.Tred.rowsGraph_adj] at h'
+    rcases a' with _ | _ | _ | _ | a'
+    · simp at h'
+      rcases h' with rfl | rfl <;> simp [exSwap]
+    · simp at h'
+    · simp at h'; subst h'; simp [exSwap]
+    · simp at h'
+    · simp at h'
+
+theorem exRows_ok (rows : List (List Nat)) (h : rows = [[1, 2], [], [3], []] ∨ rows = [[1, 2], [3], [], []]) :
+    (∀ i x, x ∈ rows.getD i [] → i < x) ∧ ∀ i, C20.ascending (rows.getD i []) = true := by
+  rcases h with rfl | rfl
+  · refine ⟨fun i x h => ?_, fun i => ?_⟩
+    · rcases i with _ | _ | _ | _ | i <;> simp at h <;> omega
+    · rcases i with _ | _ | _ | _ | i <;> simp [C20.ascending]
+  · refine ⟨fun i x h => ?_, fun i => ?_⟩
+    · rcases i with _ | _ | _ | _ | i <;> simp at h <;> omega
+    · rcases i with _ | _ | _ | _ | i <;> simp [C20.ascending]
+
+/-- `C07_tred_respects_iso` applies to the pair: closure and reduction rows of `a` correspond -/
+example : (∀ y, exSwap y ∈ (C20.Tred.reductionClosure [[1, 2], [3], [], []]).2.getD 0 [] ↔
+      y ∈ (C20.Tred.reductionClosure [[1, 2], [], [3], []]).2.getD 0 []) :=
+  (C07_tred_respects_iso exSwap exSwap_inj _ _ (exRows_ok _ (Or.inl rfl)).1 (exRows_ok _ (Or.inl rfl)).2
+    (exRows_ok _ (Or.inr rfl)).1 (exRows_ok _ (Or.inr rfl)).2 exSwap_sameAdj 0 (by decide) (by decide)).1
+
+example : (C20.Tred.reductionClosure [[1, 2], [], [3], []]).2 = [[1, 2, 3], [], [3], []] ∧
+    (C20.Tred.reductionClosure [[1, 2], [3], [], []]).2 = [[1, 3, 2], [3], [], []] := by decide
+
+end W3Examples
 
 end PetgraphModel.C07T
